@@ -39,6 +39,21 @@ def in_window(addr: int) -> bool:
     return 0x2000 <= addr <= 0x2FFF or 0xA000 <= addr <= 0xAFFF
 
 
+def drives_bus(addr: int) -> bool:
+    """True when a read of `addr` is answered by exactly one chip (A0 = 1 and CS = left or right): the only reads for
+    which the protocol prescribes the byte on the data bus (README: status / data read have no simultaneous form)."""
+    cs, _di, rw = decode(addr)
+    return rw == 1 and cs in (1, 2)
+
+
+def undriven_run(n: int) -> Tuple[Optional[int], int, int]:
+    """Result encoding of n reads none of which is answered by a chip."""
+    acc = RunDigest()
+    for _ in range(n):
+        acc.add(None)
+    return acc.result()
+
+
 def run_values(v0: int, step: int, n: int) -> List[int]:
     """Values of the bulk write verb ["W", addr, v0, step, n]."""
     return [(v0 + i * step) & 0xFF for i in range(n)]
